@@ -239,6 +239,10 @@ def get_attr(self, base, name, fr, node=None):
             ex = self.expansions.get(ci, name, base)
             if ex is not None:
                 return ex
+        # class-level constant (assigned in the class body, never stored by any function)
+        cv = self._class_constant(ci, name)
+        if cv is not None:
+            return cv
     if at is not None and at.kind == 'ite':
         c, x, y = at.args
         return T.mk_ite(c, self.get_attr(x, name, fr, node), self.get_attr(y, name, fr, node))
@@ -269,6 +273,42 @@ def get_attr(self, base, name, fr, node=None):
                     return inner_args[0]
         return T.mk_call('Time.' + name, [args[0] if args else NONE, fmt if fmt is not None else NONE])
     return T.mk_attr(base, name)
+
+
+def _class_constant(self, ci, name):
+    cache = self.__dict__.setdefault('_cconst', {})
+    key = (ci.qual, name)
+    if key in cache:
+        return cache[key]
+    cache[key] = None
+    node = None
+    for c in ci.mro():
+        for st in c.node.body:
+            if isinstance(st, ast.Assign) and any(isinstance(t_, ast.Name) and t_.id == name for t_ in st.targets):
+                node = (c, st.value)
+                break
+        if node is not None:
+            break
+    if node is None:
+        return None
+    # any store of that attribute name anywhere in the package makes it state, not a constant
+    for fi in self.prog.functions.values():
+        if isinstance(fi.node, ast.Lambda):
+            continue
+        for n in ast.walk(fi.node):
+            if isinstance(n, ast.Attribute) and n.attr == name and isinstance(n.ctx, (ast.Store, ast.Del)):
+                return None
+    c, vnode = node
+    fi0 = FuncInfo(c.module, c.qual + '.<classbody>', ast.FunctionDef(name='<classbody>', args=ast.arguments(
+        posonlyargs=[], args=[], kwonlyargs=[], kw_defaults=[], defaults=[]), body=[], decorator_list=[], lineno=0))
+    f2 = Frame_(fi0, {}, None, None, len(self.pc), 99, ())
+    rec, self.record = self.record, False
+    try:
+        v = self.ev(vnode, f2)
+    finally:
+        self.record = rec
+    cache[key] = v
+    return v
 
 
 def shape_of(t):
@@ -389,7 +429,28 @@ def ex_IfExp(self, node, fr):
         return self.ev(node.body, fr)
     if c.key == FALSE.key:
         return self.ev(node.orelse, fr)
-    return T.mk_ite(c, self.ev(node.body, fr), self.ev(node.orelse, fr))
+    # each arm is evaluated under its condition (events carry it) and on its own copy of the state
+    env0, heap0 = fr.env, self.heap
+    outs = []
+    for cond, sub in ((c, node.body), (T.mk_not(c), node.orelse)):
+        fr.env, self.heap = dict(env0), dict(heap0)
+        self.pc.append(cond)
+        npend = len(self.pending)
+        try:
+            v = self.ev(sub, fr)
+        finally:
+            self.pc.pop()
+        # a raising call inside one arm stops the statement only on that arm
+        if len(self.pending) > npend:
+            arm = self.pending[npend:]
+            del self.pending[npend:]
+            self.pending.append(T.mk_or([T.mk_not(cond), T.mk_and(arm)]))
+        outs.append((v, fr.env, self.heap))
+    same_env = all(outs[0][1].get(k) is not None and outs[1][1].get(k) is not None and outs[0][1][k].key == outs[1][1][k].key
+                   for k in set(outs[0][1]) | set(outs[1][1]))
+    fr.env = outs[0][1] if same_env else self._merge(c, outs[0][1], outs[1][1])
+    self.heap = self._merge(c, outs[0][2], outs[1][2])
+    return T.mk_ite(c, outs[0][0], outs[1][0])
 
 
 def ex_Subscript(self, node, fr):
@@ -474,8 +535,16 @@ def ex_Dict(self, node, fr):
     items = []
     for k, v in zip(node.keys, node.values):
         if k is None:
-            return Term.of(Atom('dictexpr', node.lineno))
-        items.append((self.ev(k, fr), self.ev(v, fr)))
+            # {**d, ...}: merge a dictionary whose entries are known
+            dv = self.ev(v, fr)
+            da = dv.single_atom()
+            if da is None or da.kind != 'dict':
+                return Term.of(Atom('dictexpr', node.lineno))
+            for kk, vv in da.args:
+                items = [(a_, b_) for a_, b_ in items if a_.key != kk.key] + [(kk, vv)]
+            continue
+        kt, vt = self.ev(k, fr), self.ev(v, fr)
+        items = [(a_, b_) for a_, b_ in items if a_.key != kt.key] + [(kt, vt)]
     return Term.of(Atom('dict', *items))
 
 
@@ -581,5 +650,5 @@ def ex_Slice(self, node, fr):
 for _n, _f in list(globals().items()):
     if callable(_f) and (_n.startswith('ex_') or _n in ('ev', 'ev_cond', 'ev_index', 'global_name',
                                                           'module_global', 'ext_symbol', 'class_of',
-                                                          'get_attr', 'binop', 'subscript', 'compare_terms')):
+                                                          'get_attr', 'binop', 'subscript', 'compare_terms', '_class_constant')):
         setattr(Interp, _n, _f)
